@@ -48,8 +48,9 @@ def check(res, tier, seed):
             if ran != p_:
                 hits += 1
                 res.violation("remote-e2e:" + p_, "remote definition %s: invoking the function field at path %r ran %s on the peer, expected exactly the peer's method at path %r" % (
-                    r["def"], p_, ("the method(s) at %r" % ran) if ran else "nothing", p_), dict(kind="remote", case=r))
+                    r["def"], p_, ("nothing (the call failed:%s)" % ran.split("error:", 1)[1]) if ran.startswith(" error:") else ("the method(s) at %r" % ran) if ran else "nothing", p_), dict(kind="remote", case=r))
     expected = {"valid1": "", "valid2": "", "empty": "", "nofuncs": "", "chan-map-ptr": "", "sysremote": "", "epremote": "",
+                "embedded": "", "widerctx": "", "anyfirst": "invalid arguments",
                 "badret0": "invalid return", "badret3": "invalid return", "badret-noerr": "invalid return", "badret-noerr1": "invalid return",
                 "badargs0": "invalid arguments", "badargs-noctx": "invalid arguments", "twobad": "invalid arguments",
                 "twobad2": "invalid return", "bothbad": "invalid return"}
